@@ -45,7 +45,7 @@ def get_bounding_box(
 
     for i in range(n):
         a_min = w[i]
-        a_max = 1 - w[i + n]
+        a_max = 1 - w[i + n_]
 
         ref_point.append(a_min)
         widths.append(a_max - a_min)
